@@ -218,6 +218,19 @@ def conclude(pid, tier, seed, insts, wall, workdir, extra):
             inconclusive.append((i.label, "witness twin: %s %s" % (w.verdict, w.note)))
         elif q.verdict == "fail":
             violations.append(i)
+        elif q.verdict == "unwind":
+            # a loop exceeded the bound derived from the input size: replay the
+            # input natively -- a run that does not terminate is a violation
+            # (termination is part of C14), anything else means the bound is too small
+            try:
+                rep = replay_mod.native_replay(i, q, workdir, run_timeout=30)
+            except Exception as e:  # noqa
+                rep = {"status": "error", "detail": repr(e)}
+            if rep.get("hang"):
+                q.hang_replay = rep
+                violations.append(i)
+            else:
+                inconclusive.append((i.label, q.note + " (native run of the same input terminates: bound too small?)"))
         else:
             inconclusive.append((i.label, q.note))
     # write replay files, confirm natively
@@ -231,7 +244,7 @@ def conclude(pid, tier, seed, insts, wall, workdir, extra):
                "cfg": i.cfg, "defines": i.defs, "flags": i.flags,
                "failed": q.failed, "repo_head": repo_head()}
         try:
-            rep["native"] = replay_mod.native_replay(i, q, workdir)
+            rep["native"] = getattr(q, "hang_replay", None) or replay_mod.native_replay(i, q, workdir)
         except Exception as e:  # noqa
             rep["native"] = {"status": "error", "detail": repr(e)}
         json.dump(rep, open(os.path.join(VERIF, path), "w"), indent=1)
